@@ -2,6 +2,7 @@ mod alloc;
 mod auth;
 mod autoalloc;
 mod stream;
+mod launch;
 mod queueids;
 mod sched;
 mod journal;
@@ -253,6 +254,10 @@ fn main() {
         }
         "queueids" => {
             let code = queueids::main(&args[2..]);
+            std::process::exit(code);
+        }
+        "launch" => {
+            let code = launch::main(&args[2..]);
             std::process::exit(code);
         }
         "stream" => {
